@@ -35,7 +35,7 @@ func NewH264Depacketizer(meta *codec.VideoMeta, w codec.FrameWriter) Depacketize
 
 func (h264dp *h264Depacketizer) Depacketize(packet *Packet) (err error) {
 	payload := packet.Payload()
-	if len(payload) < 3 {
+	if len(payload) < 1 {
 		return
 	}
 
@@ -45,6 +45,10 @@ func (h264dp *h264Depacketizer) Depacketize(packet *Packet) (err error) {
 	// |F|NRI|  Type   |
 	// +---------------+
 	naluType := payload[0] & h264.NalTypeBitmask
+	// 只有头部的 NAL（序列结束/流结束，1 字节）是合法的单 NAL 包；聚合包和分片包至少 3 字节
+	if len(payload) < 3 && naluType >= h264.NalStapaInRtp {
+		return
+	}
 
 	switch {
 	case naluType < h264.NalStapaInRtp:
